@@ -187,6 +187,10 @@ def build_model(cfg, faults=(), allow_first=False, keep_log=True):
         m.setBetaBinary(cfg['betaBinary'])
     if cfg.get('record_psd'):
         m.setPSDrecording(True)
+    if 'effDiff' in cfg:
+        m.enableEffectiveDiffusionDistance(cfg['effDiff'])
+    if 'theta' in cfg:
+        m.setTheta(cfg['theta'])
     m.setThermodynamics(backend, removeCache=cfg.get('removeCache', False))
     if cfg.get('sibling'):
         # a second model configured (never solved) AFTER this one and before this one is solved: configure A, configure B, solve A
@@ -360,6 +364,10 @@ def gen_stub_config(rng, nphase=None, nel=None, temperature='const', allow_gb=Tr
     cfg['constraints'] = cons
     if nel == 1 and rng.random() < 0.3:
         cfg['betaBinary'] = 2
+    if nel == 1 and rng.random() < 0.15:
+        cfg['effDiff'] = False          # effective diffusion distance correction switched off (binary growth rate)
+    if rng.random() < 0.1:
+        cfg['theta'] = 4 * math.pi      # Wakeshima incubation factor instead of the default 2
     return cfg
 
 
